@@ -260,7 +260,7 @@ func cmdSeatReplay(args []string) {
 			}
 			last.Got = 0
 			played = append(played, last)
-			if op.Op == "Next" {
+			if op.Op == "Next" || op.Op == "Reset" {
 				lastDealer = -1
 				if d := sr.m.Dealer(); d != nil {
 					lastDealer = d.ID
@@ -575,7 +575,7 @@ func cmdSeatExplore(args []string) {
 					np[len(np)-1] = SOp{Op: "Join", Seat: got, P: op.P}
 				}
 				child := node{path: np, snap: snapshot(m), posAtNext: nd.posAtNext, occAtNext: nd.occAtNext, lastDealer: nd.lastDealer}
-				if op.Op == "Next" {
+				if op.Op == "Next" || op.Op == "Reset" {
 					child.lastDealer = -1
 					if d := m.Dealer(); d != nil {
 						child.lastDealer = d.ID
